@@ -101,7 +101,10 @@ func readAll(stream []byte, cuts []int, maxLen int) ([]event, error) {
 
 func genFrame(t *rapid.T, maxPayload int) []byte {
 	var n int
-	switch rapid.IntRange(0, 5).Draw(t, "lenKind") {
+	switch rapid.IntRange(0, 6).Draw(t, "lenKind") {
+	case 6:
+		// the largest frames the read buffer holds
+		n = maxPayload - rapid.IntRange(0, 2).Draw(t, "lenBelowMax")
 	case 0:
 		n = rapid.SampledFrom([]int{253, 254, 255, 507, 508, 509, 510}).Draw(t, "lenEdge")
 	case 1:
@@ -289,12 +292,48 @@ func checkClean(frames [][]byte, stream []byte, cuts []int, maxLen int) error {
 func TestPropChunking(t *testing.T) {
 	rapid.Check(t, func(t *rapid.T) {
 		maxLen := maxLens().Draw(t, "maxLen")
-		frames := genFrames(t, maxLen, 1)
+		// the read buffer is the size client/serial.go gives it: the largest
+		// frame (with its leading and its closing delimiter) fills it exactly
+		frames := genFrames(t, maxLen, 0)
 		stream, spans, err := encodeStream(frames, maxLen)
 		if err != nil {
 			t.Fatalf("Write: %v", err)
 		}
+		// idle line: a run of extra delimiters in front of a frame ("the stream may
+		// optionally start with one or more NULL bytes", Read's own comment). The
+		// run ends with a read boundary, so that the run is not part of the read
+		// that brings the frame's first bytes -- the frame may then still fill
+		// the buffer.
+		var forced []int
+		idle := false
+		if rapid.IntRange(0, 3).Draw(t, "idleRuns") == 0 {
+			idle = true
+			var ns []byte
+			var nspans [][2]int
+			for i, sp := range spans {
+				if rapid.Bool().Draw(t, "idleBefore") || i == 0 {
+					k := rapid.SampledFrom([]int{1, 2, 3, 17, maxLen / 2, maxLen, maxLen + 5}).Draw(t, "idleLen")
+					ns = append(ns, make([]byte, k)...)
+					forced = append(forced, len(ns))
+				}
+				nspans = append(nspans, [2]int{len(ns), len(ns) + sp[1] - sp[0]})
+				ns = append(ns, stream[sp[0]:sp[1]]...)
+			}
+			stream, spans = ns, nspans
+		}
 		cuts := genCuts(t, stream)
+		if len(forced) > 0 {
+			set := map[int]bool{}
+			for _, c := range append(cuts, forced...) {
+				set[c] = true
+			}
+			cuts = cuts[:0]
+			for i := 1; i < len(stream); i++ {
+				if set[i] {
+					cuts = append(cuts, i)
+				}
+			}
+		}
 		if err := checkClean(frames, stream, cuts, maxLen); err != nil {
 			t.Fatalf("%v\nframes: %v\nstream: %s\ncuts: %s (buffer %d)", err, hexs(frames), short(stream), shortInts(cuts), maxLen)
 		}
@@ -313,6 +352,15 @@ func TestPropChunking(t *testing.T) {
 		for _, f := range frames {
 			if len(f) >= 253 {
 				cls = append(cls, "frame>=253")
+				break
+			}
+		}
+		if idle {
+			cls = append(cls, "idleDelimiterRuns")
+		}
+		for _, f := range frames {
+			if len(f) == maxPayloadFor(maxLen) {
+				cls = append(cls, "frameFillsBuffer")
 				break
 			}
 		}
